@@ -255,6 +255,7 @@ class SimFS:
         self.raw_written = {}
         self.open_writers = {}
         self.fds = {}
+        self.fd_raw = {}
         self.fake_fds = {}
         self.nsys = 0
         self.dead = False        # after a crash: nothing reaches the disk any more
@@ -307,6 +308,7 @@ class SimFS:
         self.raw_written = {}
         self.open_writers = {}
         self.fds = {}
+        self.fd_raw = {}
         self.fake_fds = {}
         self.nsys = 0
         self.dead = False
@@ -582,7 +584,29 @@ class SimFS:
 
     def p_fd_close(self, fd):
         q, kind = self.fds.pop(fd)
-        self._syscall("close", q)
+        raw = self.fd_raw.pop(fd, None)
+        if raw is not None:
+            raw.close()
+        else:
+            self._syscall("close", q)
+
+    def p_fd_write(self, fd, data):
+        """os.write on a descriptor from p_os_open: one raw write (may be short, may hit a write fault)."""
+        q, kind = self.fds[fd]
+        raw = self.fd_raw.get(fd)
+        if raw is None:
+            raw = self.fd_raw[fd] = _RawWriter(self, q, self._find_fault(("enospc", "eio_write"), q),
+                                               self._find_fault(("eio_close",), q), append=(kind == "a"))
+        return raw.write(data)
+
+    def p_fd_read(self, fd, n):
+        q, kind = self.fds[fd]
+        raw = self.fd_raw.get(fd)
+        if raw is None:
+            raw = self.fd_raw[fd] = _RawReader(self, q, self.files.get(q, b""), self._find_fault(("eio_read",), q))
+        buf = bytearray(n)
+        k = raw.readinto(buf)
+        return bytes(buf[:k])
 
     def p_open(self, file, mode="r", buffering=-1, encoding=None, errors=None, newline=None,
                closefd=True, opener=None):
@@ -717,6 +741,20 @@ class SimFS:
             return real_os_close(fd)
 
         os.close = os_close
+        real_os_write, real_os_read = os.write, os.read
+        saved["write"], saved["read"] = real_os_write, real_os_read
+
+        def os_write(fd, data):
+            if fd in fs.fds:
+                return fs.p_fd_write(fd, data)
+            return real_os_write(fd, data)
+
+        def os_read(fd, n):
+            if fd in fs.fds:
+                return fs.p_fd_read(fd, n)
+            return real_os_read(fd, n)
+
+        os.write, os.read = os_write, os_read
         if hasattr(os, "sendfile"):
             real_sendfile = os.sendfile
             saved["sendfile"] = real_sendfile
